@@ -6,9 +6,36 @@ ROOT = os.path.dirname(os.path.dirname(os.path.abspath(__file__)))
 
 # id -> (category, technique, level text, level note, engine, design ref)
 CHECKS = {
- "C01": ("exploration", "complete enumeration of the finite code space against a float64 reference EOTF",
-         "Every 8-bit and 16-bit code of every space through every public decode entry point is executed on the real code and compared with the published EOTF evaluated in float64; the domain is finite and walked completely in both tiers, so the result is a coverage statement over the whole input space of the property.",
+ "C01": ("exploration", "complete enumeration of the finite code space against a float64 reference EOTF (bounded-exhaustive input exploration of the real code)",
+         "Every 8-bit and 16-bit code of every space through every public decode entry point is executed on the real code, twice (second pass after all spaces have built their lazy tables), and compared with the published EOTF evaluated in float64; the domain is finite and walked completely in both tiers, so the result is a coverage statement over the whole input space of the property.",
          "Trusts the float64 math library and the transcription of the three published curves in refs/color.go.", "benum", "5/C01"),
+ "C02": ("exploration", "ordered walk over all float32 bit patterns per encoder with a run-endpoint interval oracle (bounded-exhaustive input exploration), both lazy-table first-use orders in separate processes",
+         "Thorough executes all 2^32 float32 patterns through each of the 6 curve encoders and 3 quantisers in increasing numeric order (monotonicity on every adjacent pair, clip law on every value, accuracy interval at both ends of every run of equal codes); quick does the same for every float32 in [0,1] and a boundary alphabet outside. Colour-type routes of all four spaces are checked on every table-bucket boundary.",
+         "Reference OETFs in float64; the accuracy interval is the one the property states (half a code, half a table step) widened by 1% and by float32 rounding slack eps = M*3e-7+1e-4.", "benum", "5/C02"),
+ "C03": ("exploration", "probing + bounded-exhaustive lattice enumeration (uniform and geometric) against a float64 derivation from the declared chromaticities",
+         "All 18 coefficients per space are recovered by probing and compared with an independent derivation (Cramer's rule / Gauss-Jordan); additivity and both round trips are checked on every point of a uniform lattice and of a geometric lattice that reaches narrow bands next to 0 and 1, in and out of range.",
+         "Between lattice points the claim rests on the additivity check on the lattice; published chromaticities are transcribed by hand in refs/color.go.", "benum", "5/C03"),
+ "C04": ("exploration", "complete enumeration of all 2^24 RGB x 16 ordered space pairs (thorough) / dense lattice (quick) through the documented pipeline against a float64 colorimetric reference",
+         "Every 8-bit RGB value at alpha 255 for each of the 16 ordered pairs, plus an alpha sweep, is pushed through the README pipeline on the real code and compared per channel with the interval allowed by the encoder law around the float64 reference value.",
+         "Reference = standards' curves + matrices derived from declared chromaticities + linear Bradford; tolerance = C02's encoder law plus delta for the float32 pipeline.", "benum", "5/C04"),
+ "C10": ("exploration", "complete enumeration of the configuration product (source type x destination type x bounds shape x parallelism x transform x in-place) with a whole-backing-array oracle",
+         "Every configuration of the stated finite product is executed on the real code and every byte of the destination parent's backing array is compared with the per-pixel definition computed through the standard library's Set; identical for every parallelism and for in-place use by construction of the oracle.",
+         "Trusts image/draw's Set/colour-model conversion as the definition of 'the destination colour model's conversion'.", "benum", "5/C10"),
+ "C12": ("exploration", "bounded-exhaustive enumeration of white-point pairs/triples on a chromaticity lattice plus near-neighbour pairs against a float64 Bradford reference",
+         "All ordered pairs of a 32x32 (quick) / 64x64 (thorough) chromaticity lattice and the CIE illuminants, near-neighbour pairs, all triples over a 79-point set, both constructors, and Apply on uniform+geometric XYZ lattices are executed and compared with an independent Bradford implementation and the algebraic laws.",
+         "Complete over the stated lattices only; tolerance for the exact-chromaticity comparison is derived per pair from the sensitivity of the reference to float32 input rounding.", "benum", "5/C12"),
+ "C13": ("exploration", "bounded-exhaustive lattice enumeration (uniform + geometric + every float32 in the junction window) against the float64 CIE 1976 definition",
+         "XYZ lattices x 8 whites, every float32 whose ratio lies within 1e-6 of the junction on each axis, a 2^20-step Y ramp, a Lab lattice and multiples of the white are executed on the real code and compared with the CIE definition, its inverse, monotonicity, continuity and round-trip bounds.",
+         "Complete over the stated lattices only; 1e-3 bound widened by one float32 ulp of the result.", "benum", "5/C13"),
+ "C14": ("exploration", "complete enumeration of all 16-bit (channel, alpha) pairs with channel <= alpha per curve (thorough), all alphas x boundary channels (quick), all 8-bit pairs, float32 alpha alphabet",
+         "Thorough walks all 2.1e9 premultiplied pairs per space through LineariseColor; both tiers walk all 65,536 alphas through every constructor/converter and all 65,536 8-bit (channel, alpha) pairs; expected alpha is computed with math/big.",
+         "Zero-colour clause applied to premultiplied and generic constructors only (see assumptions).", "benum", "5/C14"),
+ "C15": ("exploration", "complete enumeration of helper x image type x bounds x sub-image x content pattern x parallelism, differential against image/draw",
+         "Every configuration of the stated finite product is executed and compared byte-for-byte with draw.Draw(Src); thorough adds an image holding all 2^24 YCbCr triples; both tiers include all 8-bit (channel, alpha) pairs.",
+         "Trusts image/draw as the specification, as the property states.", "benum", "5/C15"),
+ "C20": ("exploration", "bounded-exhaustive enumeration of primaries triangles x whites on a chromaticity lattice and of 3x3 matrices over dyadic and non-dyadic alphabets against Cramer / Gauss-Jordan references",
+         "All lattice triangles with area >= 0.01 x all interior lattice whites, 21 published spaces in all orders, every matrix over the entry alphabets (Inverse, MulM both ways x 14 partners, MulV, Transpose) and every repeated/zero-column singular matrix are executed on the real code.",
+         "Complete over the stated alphabets only; tolerance 4e-7*(1+cond) for the package's float32 xyY->XYZ step.", "benum", "5/C20"),
 }
 
 PENDING = "check not built yet in this revision (work in progress; see DESIGN.md section 5 for the plan)"
